@@ -284,14 +284,127 @@ type Rendered struct {
 	Offsets map[string]int
 }
 
+// Layout is one surface spelling of a schema (spec/Surface.tla enumerates the vectors).
+type Layout struct {
+	NL         string // "\n", "\r\n", "\r"
+	Indent     string // one indentation unit
+	Ann        string // inline | block | spread
+	HashOwn    bool   // '#' comments on lines of their own
+	HashTrail  bool   // '#' comment after the value / annotation
+	HashBlock  bool   // '###' block comments
+	Quoted     bool   // quoted rule names
+	TrailComma bool   // trailing comma inside the rule object
+	Reversed   bool   // rules in reverse order
+	EmptyPad   bool   // a blank inside empty brackets
+	Note       bool   // a note on every annotated node
+	ColonPad   bool   // blanks around ':' and before ','
+}
+
+var houseLayout = Layout{NL: "\n", Indent: "  ", Ann: "inline"}
+
+func layoutFromSpec(m map[string]string) Layout {
+	l := houseLayout
+	switch m["nl"] {
+	case "CRLF":
+		l.NL = "\r\n"
+	case "CR":
+		l.NL = "\r"
+	}
+	switch m["indent"] {
+	case "0":
+		l.Indent = ""
+	case "tab":
+		l.Indent = "\t"
+	}
+	l.Ann = m["ann"]
+	yes := func(k string) bool { return m[k] == "yes" }
+	l.HashOwn, l.HashTrail, l.HashBlock = yes("hashOwn"), yes("hashTrail"), yes("hashBlock")
+	l.Quoted, l.TrailComma, l.Reversed = yes("quoted"), yes("trailComma"), yes("reversed")
+	l.EmptyPad, l.Note, l.ColonPad = yes("emptyPad"), yes("note"), yes("colonPad")
+	return l
+}
+
 type renderer struct {
 	sb      strings.Builder
 	offsets map[string]int
-	nl      string
-	indent  string
+	l       Layout
+}
+
+func (r *renderer) rulesText(rules []Rule) string {
+	parts := make([]string, len(rules))
+	for i, ru := range rules {
+		name := ru.N
+		if r.l.Quoted {
+			name = strconv.Quote(name)
+		}
+		v := ru.V.text()
+		if ru.V.T == "set" {
+			v = r.rulesText(ru.V.Rules)
+		} else if ru.V.T == "list" {
+			items := make([]string, len(ru.V.Items))
+			for j, it := range ru.V.Items {
+				if it.T == "set" {
+					items[j] = r.rulesText(it.Rules)
+				} else {
+					items[j] = it.text()
+				}
+			}
+			v = "[" + strings.Join(items, ", ") + "]"
+		}
+		parts[i] = name + ": " + v
+	}
+	if r.l.Reversed {
+		for i, j := 0, len(parts)-1; i < j; i, j = i+1, j-1 {
+			parts[i], parts[j] = parts[j], parts[i]
+		}
+	}
+	sep := ", "
+	if r.l.Ann == "spread" {
+		sep = "," + r.l.NL + "   "
+	}
+	tail := ""
+	if r.l.TrailComma && len(parts) > 0 {
+		tail = ","
+	}
+	return "{" + strings.Join(parts, sep) + tail + "}"
+}
+
+func (r *renderer) annotation(n Node) string {
+	note := n.Note
+	if r.l.Note && note == "" && len(n.Rules) > 0 {
+		note = "a note"
+	}
+	body := ""
+	if len(n.Rules) > 0 {
+		body = r.rulesText(n.Rules)
+		if note != "" {
+			body += " - " + note
+		}
+	} else if note != "" {
+		body = note
+	}
+	s := ""
+	if body != "" {
+		switch r.l.Ann {
+		case "block":
+			s = " /* " + body + " */"
+		case "spread":
+			s = " /*" + r.l.NL + "  " + body + r.l.NL + "*/"
+		default:
+			s = " // " + body
+		}
+	}
+	if r.l.HashTrail && !(note != "" && r.l.Ann == "inline" && body != "") && !(r.l.Ann == "inline" && body != "" && len(n.Rules) == 0) {
+		s += " # trailing comment"
+	}
+	return s
 }
 
 func (r *renderer) head(n Node) string { // first token of a node
+	pad := ""
+	if r.l.EmptyPad {
+		pad = " "
+	}
 	switch n.T {
 	case "lit":
 		return n.V.JSON()
@@ -299,12 +412,12 @@ func (r *renderer) head(n Node) string { // first token of a node
 		return strings.Join(n.Names, " | ")
 	case "obj":
 		if len(n.Props) == 0 {
-			return "{}"
+			return "{" + pad + "}"
 		}
 		return "{"
 	case "arr":
 		if len(n.Items) == 0 {
-			return "[]"
+			return "[" + pad + "]"
 		}
 		return "["
 	}
@@ -312,51 +425,77 @@ func (r *renderer) head(n Node) string { // first token of a node
 	return ""
 }
 
+func (r *renderer) ownLineComments(ind string, last bool) {
+	if r.l.HashOwn {
+		r.sb.WriteString(r.l.NL + ind + "# a comment on its own line")
+	}
+	if r.l.HashBlock && last {
+		r.sb.WriteString(r.l.NL + ind + "###" + r.l.NL + ind + "a block" + r.l.NL + ind + "comment" + r.l.NL + ind + "###")
+	}
+}
+
 // node writes n starting at the current position; `tail` (a comma or "") is placed where the language wants it.
 func (r *renderer) node(n Node, path string, depth int, tail string) {
 	r.offsets[path] = r.sb.Len()
 	h := r.head(n)
 	multi := (n.T == "obj" && len(n.Props) > 0) || (n.T == "arr" && len(n.Items) > 0)
+	if tail != "" && r.l.ColonPad {
+		tail = " " + tail
+	}
 	if !multi {
-		r.sb.WriteString(h + tail + annotation(n))
+		r.sb.WriteString(h + tail + r.annotation(n))
 		return
 	}
-	r.sb.WriteString(h + annotation(n))
-	ind := strings.Repeat(r.indent, depth+1)
+	r.sb.WriteString(h + r.annotation(n))
+	ind := strings.Repeat(r.l.Indent, depth+1)
+	colon := ": "
+	if r.l.ColonPad {
+		colon = "  :   "
+	}
 	if n.T == "obj" {
 		for i, p := range n.Props {
-			r.sb.WriteString(r.nl + ind)
+			r.ownLineComments(ind, i == len(n.Props)-1)
+			r.sb.WriteString(r.l.NL + ind)
 			if p.Sc {
 				r.sb.WriteString(p.Kt)
 			} else {
 				r.sb.WriteString(quoteKey(string(p.K)))
 			}
-			r.sb.WriteString(": ")
+			r.sb.WriteString(colon)
 			t := ","
 			if i == len(n.Props)-1 {
 				t = ""
 			}
 			r.node(p.N, path+"/"+string(p.K)+p.Kt, depth+1, t)
 		}
-		r.sb.WriteString(r.nl + strings.Repeat(r.indent, depth) + "}" + tail)
+		r.sb.WriteString(r.l.NL + strings.Repeat(r.l.Indent, depth) + "}" + tail)
 	} else {
 		for i, it := range n.Items {
-			r.sb.WriteString(r.nl + ind)
+			r.ownLineComments(ind, i == len(n.Items)-1)
+			r.sb.WriteString(r.l.NL + ind)
 			t := ","
 			if i == len(n.Items)-1 {
 				t = ""
 			}
 			r.node(it, path+"/"+strconv.Itoa(i), depth+1, t)
 		}
-		r.sb.WriteString(r.nl + strings.Repeat(r.indent, depth) + "]" + tail)
+		r.sb.WriteString(r.l.NL + strings.Repeat(r.l.Indent, depth) + "]" + tail)
 	}
 }
 
-func renderSchema(n Node) Rendered {
-	r := &renderer{offsets: map[string]int{}, nl: "\n", indent: "  "}
+func renderSchemaL(n Node, l Layout) Rendered {
+	r := &renderer{offsets: map[string]int{}, l: l}
+	if l.HashOwn {
+		r.sb.WriteString("# a comment on the first line" + l.NL)
+	}
+	if l.HashBlock {
+		r.sb.WriteString("###" + l.NL + "block comment" + l.NL + "###" + l.NL)
+	}
 	r.node(n, "", 0, "")
 	return Rendered{r.sb.String(), r.offsets}
 }
+
+func renderSchema(n Node) Rendered { return renderSchemaL(n, houseLayout) }
 
 func renderEnum(items []Value) string {
 	parts := make([]string, len(items))
@@ -368,15 +507,19 @@ func renderEnum(items []Value) string {
 
 // buildSchema creates the real schema object for (root, env) under the "mesh" or "star" protocol.
 func buildSchema(root Node, env Env, keysOptional bool, mesh bool) (*jschema.Schema, Rendered, error) {
+	return buildSchemaL(root, env, keysOptional, mesh, houseLayout)
+}
+
+func buildSchemaL(root Node, env Env, keysOptional bool, mesh bool, l Layout) (*jschema.Schema, Rendered, error) {
 	var opts []jschema.Option
 	if keysOptional {
 		opts = append(opts, jschema.KeysAreOptionalByDefault())
 	}
-	rr := renderSchema(root)
+	rr := renderSchemaL(root, l)
 	s := jschema.New("root", rr.Text, opts...)
 	types := make([]*jschema.Schema, len(env.Types))
 	for i, t := range env.Types {
-		types[i] = jschema.New(t.Name, renderSchema(t.N).Text, opts...)
+		types[i] = jschema.New(t.Name, renderSchemaL(t.N, l).Text, opts...)
 	}
 	rules := make([]jlib.Rule, len(env.Enums))
 	for i, e := range env.Enums {
